@@ -54,9 +54,9 @@ def _resolve_pid(sim, op):
         # a running child of the daemon that no watcher tracks any more (released by rm nostop, forgotten after a
         # failing after_spawn hook ...): it is still the daemon's child and its zombie is the daemon's to reap
         tracked = set()
-        for w in sim._all_watchers:
+        for w in list(getattr(sim.arb, "watchers", [])):       # (the watchers the arbiter HAS: a removed one tracks nothing)
             tracked.update(w.processes.keys())
-        cands = sorted(pid for pid, sp in sim.kernel.procs.items() if sp.st == "run" and sp.parent == 0 and pid not in tracked)
+        cands = sorted(pid for pid, sp in sim.kernel.procs.items() if sp.st == "run" and sp.parent is None and pid not in tracked)
         return cands[op["untracked"] % len(cands)] if cands else None
     return None
 
